@@ -511,7 +511,7 @@ func buildRings(r *core.Run) []*ring {
 	if r.Quick() {
 		// R1a: paths and lastIndex protocol: variants and runtime kinds, every start position, every operation
 		rings = append(rings, &ring{name: "R1a-paths", patterns: pathPatternsT, flags: append(flagSubsetsOf("guy"), "gimsuy"),
-			subjects: allSubjects(2, pathSymsQ), ops: allOps, kinds: kindsAll, patches: []int{0, 1, 2}, wantB: true, starts: true})
+			subjects: allSubjects(2, pathSymsQ), ops: allOps, kinds: kindsQuick, patches: []int{0, 1, 2}, wantB: true, starts: true})
 		// R1b: engine semantics. weight-1 patterns x all subsets of imsu x full subject alphabet
 		rings = append(rings, &ring{name: "R1b-engine-w1", patterns: ext1, flags: flagSubsetsOf("imsu"),
 			subjects: allSubjects(2, all), ops: opsEngine, kinds: kindsPlain, patches: []int{0}, wantB: true})
